@@ -20,6 +20,10 @@ fn declared(ty: &RType) -> (Option<LimitVal>, Option<LimitVal>) {
         RType::Single { min, max } => (min.map(LimitVal::S), max.map(LimitVal::S)),
         RType::Double { min, max } => (min.map(LimitVal::D), max.map(LimitVal::D)),
         RType::Int { min, max } => (Some(LimitVal::I(*min)), Some(LimitVal::I(*max))),
+        // limits of a scaled integer record are raw values in the record's scale and offset; the declared range is
+        // the range of the values the raw ones stand for, so with a negative scale the smallest value is the one of
+        // the largest raw number
+        RType::Scaled { min, max, scale, .. } if scale.0 < 0.0 => (Some(LimitVal::SI(*max)), Some(LimitVal::SI(*min))),
         RType::Scaled { min, max, .. } => (Some(LimitVal::SI(*min)), Some(LimitVal::SI(*max))),
     }
 }
